@@ -141,7 +141,7 @@ type pgen struct {
 func (g *pgen) fresh(prefix string) string { g.nvar++; return fmt.Sprintf("%s%d", prefix, g.nvar) }
 
 func (g *pgen) intLit() string {
-	return pick(g.r, "0", "1", "2", "3", "7", "10", "100", "9223372036854775807")
+	return pick(g.r, "0", "1", "2", "3", "7", "10", "100", "9223372036854775807", "010", "08", "0100", "007")
 }
 func (g *pgen) fltLit() string { return pick(g.r, "0.5", "1.5", "2.25", ".5", "3.", "0.1", "10.75") }
 
@@ -421,6 +421,7 @@ func evalGen(r *rand.Rand, tier string, n int) []*wire.Case {
 	add("d-nan", "let z = 0.0; let n = z / z; print(n <= 1); print(1 <= n); print(n >= 1); print(1 >= n); print(n <= n); print(n >= n); print(n < 1); print(n > 1); print(n == n); print(n != n); print(n <> 1);",
 		"let i = 1 / 0.0; print(i > 100); print(0 - i < 0); print(i <= i); print(i - i <= 0); print(!(i - i)); print((i - i) && 1); print((i - i) || 0);",
 		"let z = 0.0; if z / z <= 0.5 { print(1); } else { print(2); } while z / z >= 0 { print(3); break; }")
+	add("d-number-spellings", "print(010); print(08); print(0100); print(-012); print(007); print(010 + 1); print(08 / 2); print(010.5); print(9223372036854775808); print(99999999999999999999 + 1);")
 	add("d-compare", "print(1 < 2); print(2 <= 2); print(3 > 4); print(1 == 1.0); print(1 != 2); print(1 <> 1); print(2 && 0); print(0 || 0.0); print(0 || \"s\" == 1);")
 	add("d-errors", "print(1 / 0);", "print(1.0 / 0);", "print(\"a\" + 1);", "print(nope);", "fn f(a) { return a; } print(f());", "let a = 1; let a = 2;", "print(5 / (2 - 2));", "print(type(1)); print(type(\"s\")); print(type(null)); print(type([1])); print(type(print)); print(type(fn(){ return 1; }));")
 	add("d-fn-args", "let a = 1; let b = 2; fn second(b, a) { return a; } print(second(a, b)); print(second(b, a));",
